@@ -23,7 +23,7 @@ COMPONENTS = {"real": ["mofun.cli.mofun_cli.mofun_cli (click command, standalone
               "oracle_only": ["the harness' own sequencing of the same API calls; byte comparison of the two output files, parsed comparison on mismatch"]}
 ASSUMPTIONS = ["hints are not required to reach the search in find-only mode (C03 makes the result hint-independent)",
                "--framework-element is a listed known finding (raises AttributeError) and is exercised in ~3% of the runs only"]
-NRUNS = {"quick": 500, "thorough": 10000}
+NRUNS = {"quick": 5000, "thorough": 60000}
 RUN_TIMEOUT = 120.0
 MUST_REACH = ["cli_runs", "replace_runs", "find_only_runs", "opt_replicate", "opt_mic", "opt_chargefile", "opt_pp", "opt_hints", "output_cif", "input_cml"]
 
